@@ -44,35 +44,34 @@ def isHelper (k : Bytes) : Bool := sIndexSuffix.isSuffixOf k || sLastIndexSuffix
 /-- the scalar operator fragment, with (`ord = true`) or without the four ordering comparisons.  `coll` names
     the variables that may hold a collection (a list, a map): the fragment does not read those as scalars
     (they are what a {foreach} ranges over / a {call} passes as data, Props/C02Spec.lean). -/
-def fragO (coll : Bytes → Bool) (ord : Bool) : Expr → Bool
+def fragO (ord : Bool) : Expr → Bool
   | .null _ => true
   | .bool _ _ => true
   | .int _ v => decide (-2 ^ 63 ≤ v ∧ v < 2 ^ 63)
   | .float _ _ => true
   | .str _ _ _ => true
   | .global _ _ => true
-  | .dataRef _ key .nil => key != sIj && !isHelper key && !coll key
-  | .not _ a => fragO coll ord a
-  | .neg _ a => fragO coll ord a
-  | .bin op _ a b => opOk ord op && fragO coll ord a && fragO coll ord b
-  | .tern _ c a b => fragO coll ord c && fragO coll ord a && fragO coll ord b
+  | .dataRef _ key .nil => key != sIj && !isHelper key
+  | .not _ a => fragO ord a
+  | .neg _ a => fragO ord a
+  | .bin op _ a b => opOk ord op && fragO ord a && fragO ord b
+  | .tern _ c a b => fragO ord c && fragO ord a && fragO ord b
   | _ => false
 
 /-- the fragment without `< > <= >=` (no hypothesis about the soft-float needed) -/
-def frag (coll : Bytes → Bool) (e : Expr) : Bool := fragO coll false e
+def frag (e : Expr) : Bool := fragO false e
 
 /-- the model's environment and the specification's bind the same values — scalars, except under the names
     `coll` -/
-structure EnvRel (coll : Bytes → Bool) (m : EEnv) (s : Spec.Eval.Env) : Prop where
+structure EnvRel (m : EEnv) (s : Spec.Eval.Env) : Prop where
   vars : ∀ k, isHelper k = false → absV (m.lookup k) = s.lookup k
-  scalar : ∀ k, coll k = false → Scalar (m.lookup k) = true
   globals : ∀ k, match Frame.find m.globals k with
-    | some v => Spec.Eval.find s.globals k = some (absV v) ∧ Scalar v = true
+    | some v => Spec.Eval.find s.globals k = some (absV v)
     | none => Spec.Eval.find s.globals k = none
 
 /-- on `e` the model agrees with the specification wherever the specification is defined -/
 def Sim (m : EEnv) (s : Spec.Eval.Env) (e : Expr) : Prop :=
-  ∀ n, (∀ v, Spec.Eval.eval s e = .val v → ∃ mv n', evalE m e n = .ok mv n' ∧ absV mv = v ∧ Scalar mv = true) ∧
+  ∀ n, (∀ v, Spec.Eval.eval s e = .val v → ∃ mv n', evalE m e n = .ok mv n' ∧ absV mv = v) ∧
        (Spec.Eval.eval s e = .error → evalE m e n = .err)
 
 theorem bind_val {α β : Type} {o : Out α} {f : α → Out β} {b : β} (h : o.bind f = .val b) :
@@ -84,13 +83,13 @@ theorem bind_err {α β : Type} {o : Out α} {f : α → Out β} (h : o.bind f =
   cases o <;> simp [Spec.Eval.Out.bind] at h ⊢; exact h
 
 section
-variable {coll : Bytes → Bool} {m : EEnv} {s : Spec.Eval.Env} (hr : EnvRel coll m s)
+variable {m : EEnv} {s : Spec.Eval.Env} (hr : EnvRel m s)
 include hr
 
 /-- the strict operators (`+ - * / %`) given the two operands' simulations -/
 theorem strict_sim (op : BinOp) (p : Nat) (a b : Expr)
     (hop : op = .add ∨ op = .sub ∨ op = .mul ∨ op = .div ∨ op = .mod ∨ op = .lt ∨ op = .le ∨ op = .gt ∨ op = .ge)
-    (harith : ∀ x y, Scalar x = true → Scalar y = true → ArithSpec op x y)
+    (harith : ∀ x y, ArithSpec op x y)
     (ha : Sim m s a) (hb : Sim m s b) : Sim m s (.bin op p a b) := by
   intro n
   have hS : Spec.Eval.eval s (.bin op p a b) =
@@ -113,30 +112,30 @@ theorem strict_sim (op : BinOp) (p : Nat) (a b : Expr)
   refine ⟨fun v hv => ?_, fun herr => ?_⟩
   · obtain ⟨va, hva, hv⟩ := bind_val hv
     obtain ⟨vb, hvb, hv⟩ := bind_val hv
-    obtain ⟨ma, n1, hma, habs, hsa⟩ := (ha n).1 va hva
-    obtain ⟨mb, n2, hmb, hbbs, hsb⟩ := (hb n1).1 vb hvb
-    have := (harith ma mb hsa hsb).1 v (by rw [habs, hbbs]; exact hv)
+    obtain ⟨ma, n1, hma, habs⟩ := (ha n).1 va hva
+    obtain ⟨mb, n2, hmb, hbbs⟩ := (hb n1).1 vb hvb
+    have := (harith ma mb).1 v (by rw [habs, hbbs]; exact hv)
     obtain ⟨hna, hnb, mv, hmv, hmabs, hmsc⟩ := this
-    refine ⟨mv, n2, ?_, hmabs, hmsc⟩
+    refine ⟨mv, n2, ?_, hmabs⟩
     rw [hma]
     cases ma <;> simp_all
     all_goals (cases mb <;> simp_all)
   · rcases bind_err herr with h | ⟨va, hva, herr⟩
     · rw [(ha n).2 h]
-    · obtain ⟨ma, n1, hma, habs, hsa⟩ := (ha n).1 va hva
+    · obtain ⟨ma, n1, hma, habs⟩ := (ha n).1 va hva
       rw [hma]
       rcases bind_err herr with h | ⟨vb, hvb, herr⟩
       · have hb' := (hb n1).2 h
         cases ma <;> simp [hb']
-      · obtain ⟨mb, n2, hmb, hbbs, hsb⟩ := (hb n1).1 vb hvb
-        have := (harith ma mb hsa hsb).2 (by rw [habs, hbbs]; exact herr)
+      · obtain ⟨mb, n2, hmb, hbbs⟩ := (hb n1).1 vb hvb
+        have := (harith ma mb).2 (by rw [habs, hbbs]; exact herr)
         rcases this with h | h | h
         · subst h; simp
         · subst h; cases ma <;> simp [hmb]
         · cases ma <;> simp [hmb] <;> cases mb <;> simp_all
 
 /-- the model refines the specification on the scalar operator fragment -/
-theorem eval_refines_spec_ord (ord : Bool) (hord : ord = true → OrdExact) : (e : Expr) → fragO coll ord e = true → Sim m s e
+theorem eval_refines_spec_ord (ord : Bool) (hord : ord = true → OrdExact) : (e : Expr) → fragO ord e = true → Sim m s e
   | .null _, _ => by intro n; simp [Spec.Eval.eval, evalE, absV, Scalar]
   | .bool _ b, _ => by intro n; simp [Spec.Eval.eval, evalE, absV, Scalar]
   | .int _ v, hf => by
@@ -151,29 +150,29 @@ theorem eval_refines_spec_ord (ord : Bool) (hord : ord = true → OrdExact) : (e
     rw [Spec.Eval.eval, evalE]
     split at hg
     · rename_i v hv
-      rw [hv, hg.1]
-      simp [hg.2]
+      rw [hv, hg]
+      simp
     · rename_i hv
       rw [hv, hg]
       simp
   | .dataRef _ key .nil, hf => by
     intro n
     simp only [fragO, bne_iff_ne, ne_eq, Bool.and_eq_true, Bool.not_eq_true'] at hf
-    have h1 : (key == sIj) = false := by simpa using hf.1.1
+    have h1 : (key == sIj) = false := by simpa using hf.1
     have h2 : (key == Spec.Eval.sIj) = false := h1
     rw [Spec.Eval.eval, evalE]
     simp only [h1, h2, Bool.false_eq_true, if_false, Spec.Eval.evalAcc, evalAccesses]
-    simp [hr.vars key hf.1.2, hr.scalar key hf.2]
+    simp [hr.vars key hf.2]
   | .not _ a, hf => by
     intro n
     have ih := eval_refines_spec_ord ord hord a (by simpa [fragO] using hf) n
     rw [Spec.Eval.eval, evalE]
     refine ⟨fun v hv => ?_, fun herr => ?_⟩
     · obtain ⟨va, hva, hv⟩ := bind_val hv
-      obtain ⟨ma, n1, hma, habs, hsa⟩ := ih.1 va hva
+      obtain ⟨ma, n1, hma, habs⟩ := ih.1 va hva
       rw [hma]
       simp only [Out.val.injEq] at hv
-      exact ⟨_, _, rfl, by rw [← hv, ← habs, truthy_abs ma hsa]; rfl, rfl⟩
+      exact ⟨_, _, rfl, by rw [← hv, ← habs, truthy_abs ma]; rfl⟩
     · rcases bind_err herr with h | ⟨va, _, h⟩
       · rw [ih.2 h]
       · simp at h
@@ -183,7 +182,7 @@ theorem eval_refines_spec_ord (ord : Bool) (hord : ord = true → OrdExact) : (e
     rw [Spec.Eval.eval, evalE]
     refine ⟨fun v hv => ?_, fun herr => ?_⟩
     · obtain ⟨va, hva, hv⟩ := bind_val hv
-      obtain ⟨ma, n1, hma, habs, hsa⟩ := ih.1 va hva
+      obtain ⟨ma, n1, hma, habs⟩ := ih.1 va hva
       rw [hma]
       subst habs
       cases ma with
@@ -192,20 +191,20 @@ theorem eval_refines_spec_ord (ord : Bool) (hord : ord = true → OrdExact) : (e
         split at hv
         · rename_i hin
           simp only [Out.val.injEq] at hv
-          exact ⟨.int (-i), n1, rfl, by rw [← hv]; simp [absV, toInt_neg_of _ hin], rfl⟩
+          exact ⟨.int (-i), n1, rfl, by rw [← hv]; simp [absV, toInt_neg_of _ hin]⟩
         · simp at hv
       | float f =>
         simp only [absV, Out.val.injEq] at hv
-        exact ⟨.float (F64.neg f), n1, rfl, by rw [← hv]; simp [absV], rfl⟩
+        exact ⟨.float (F64.neg f), n1, rfl, by rw [← hv]; simp [absV]⟩
       | undefined => simp [absV] at hv
       | null => simp [absV] at hv
       | bool _ => simp [absV] at hv
       | str _ => simp [absV] at hv
-      | list _ _ => simp [Scalar] at hsa
-      | map _ _ => simp [Scalar] at hsa
+      | list _ _ => simp [absV] at hv
+      | map _ _ => simp [absV] at hv
     · rcases bind_err herr with h | ⟨va, hva, h⟩
       · rw [ih.2 h]
-      · obtain ⟨ma, n1, hma, habs, hsa⟩ := ih.1 va hva
+      · obtain ⟨ma, n1, hma, habs⟩ := ih.1 va hva
         rw [hma]
         subst habs
         cases ma with
@@ -213,8 +212,6 @@ theorem eval_refines_spec_ord (ord : Bool) (hord : ord = true → OrdExact) : (e
           simp only [absV, Spec.Eval.intRes] at h
           split at h <;> simp at h
         | float f => simp [absV] at h
-        | list _ _ => simp [Scalar] at hsa
-        | map _ _ => simp [Scalar] at hsa
         | _ => rfl
   | .tern _ c a b, hf => by
     intro n
@@ -223,19 +220,19 @@ theorem eval_refines_spec_ord (ord : Bool) (hord : ord = true → OrdExact) : (e
     rw [Spec.Eval.eval, evalE]
     refine ⟨fun v hv => ?_, fun herr => ?_⟩
     · obtain ⟨vc, hvc, hv⟩ := bind_val hv
-      obtain ⟨mc, n1, hmc, habs, hsc⟩ := ihc.1 vc hvc
+      obtain ⟨mc, n1, hmc, habs⟩ := ihc.1 vc hvc
       rw [hmc]
       simp only
-      rw [← habs, truthy_abs mc hsc] at hv
+      rw [← habs, truthy_abs mc] at hv
       split at hv
       · rename_i ht; simp only [ht, if_true]; exact (eval_refines_spec_ord ord hord a hf.1.2 n1).1 v hv
       · rename_i ht; simp only [ht, if_false]; exact (eval_refines_spec_ord ord hord b hf.2 n1).1 v hv
     · rcases bind_err herr with h | ⟨vc, hvc, h⟩
       · rw [ihc.2 h]
-      · obtain ⟨mc, n1, hmc, habs, hsc⟩ := ihc.1 vc hvc
+      · obtain ⟨mc, n1, hmc, habs⟩ := ihc.1 vc hvc
         rw [hmc]
         simp only
-        rw [← habs, truthy_abs mc hsc] at h
+        rw [← habs, truthy_abs mc] at h
         split at h
         · rename_i ht; simp only [ht, if_true]; exact (eval_refines_spec_ord ord hord a hf.1.2 n1).2 h
         · rename_i ht; simp only [ht, if_false]; exact (eval_refines_spec_ord ord hord b hf.2 n1).2 h
@@ -270,25 +267,25 @@ theorem eval_refines_spec_ord (ord : Bool) (hord : ord = true → OrdExact) : (e
       refine ⟨fun v hv => ?_, fun herr => ?_⟩
       · obtain ⟨va, hva, hv⟩ := bind_val hv
         obtain ⟨vb, hvb, hv⟩ := bind_val hv
-        obtain ⟨ma, n1, hma, habs, hsa⟩ := (iha n).1 va hva
-        obtain ⟨mb, n2, hmb, hbbs, hsb⟩ := (ihb n1).1 vb hvb
+        obtain ⟨ma, n1, hma, habs⟩ := (iha n).1 va hva
+        obtain ⟨mb, n2, hmb, hbbs⟩ := (ihb n1).1 vb hvb
         simp only [Spec.Eval.binop] at hv
         obtain ⟨r, hr', hv⟩ := bind_val hv
-        have he := (equals_refines ma mb hsa hsb).1 r (by rw [habs, hbbs]; exact hr')
+        have he := (equals_refines ma mb).1 r (by rw [habs, hbbs]; exact hr')
         simp only [Out.val.injEq] at hv
         rw [hma]
         simp only [hmb]
-        exact ⟨_, n2, rfl, by rw [he, ← hv]; simp [absV], rfl⟩
+        exact ⟨_, n2, rfl, by rw [he, ← hv]; simp [absV]⟩
       · rcases bind_err herr with h | ⟨va, hva, herr⟩
         · rw [(iha n).2 h]
-        · obtain ⟨ma, n1, hma, habs, hsa⟩ := (iha n).1 va hva
+        · obtain ⟨ma, n1, hma, habs⟩ := (iha n).1 va hva
           rw [hma]
           rcases bind_err herr with h | ⟨vb, hvb, herr⟩
           · simp only [(ihb n1).2 h]
-          · obtain ⟨mb, n2, hmb, hbbs, hsb⟩ := (ihb n1).1 vb hvb
+          · obtain ⟨mb, n2, hmb, hbbs⟩ := (ihb n1).1 vb hvb
             simp only [Spec.Eval.binop] at herr
             rcases bind_err herr with h | ⟨r, _, h⟩
-            · exact absurd (by rw [habs, hbbs]; exact h) (equals_refines ma mb hsa hsb).2
+            · exact absurd (by rw [habs, hbbs]; exact h) (equals_refines ma mb).2
             · simp at h
     | ne =>
       intro n
@@ -299,51 +296,51 @@ theorem eval_refines_spec_ord (ord : Bool) (hord : ord = true → OrdExact) : (e
       refine ⟨fun v hv => ?_, fun herr => ?_⟩
       · obtain ⟨va, hva, hv⟩ := bind_val hv
         obtain ⟨vb, hvb, hv⟩ := bind_val hv
-        obtain ⟨ma, n1, hma, habs, hsa⟩ := (iha n).1 va hva
-        obtain ⟨mb, n2, hmb, hbbs, hsb⟩ := (ihb n1).1 vb hvb
+        obtain ⟨ma, n1, hma, habs⟩ := (iha n).1 va hva
+        obtain ⟨mb, n2, hmb, hbbs⟩ := (ihb n1).1 vb hvb
         simp only [Spec.Eval.binop] at hv
         obtain ⟨r, hr', hv⟩ := bind_val hv
-        have he := (equals_refines ma mb hsa hsb).1 r (by rw [habs, hbbs]; exact hr')
+        have he := (equals_refines ma mb).1 r (by rw [habs, hbbs]; exact hr')
         simp only [Out.val.injEq] at hv
         rw [hma]
         simp only [hmb]
-        exact ⟨_, n2, rfl, by rw [he, ← hv]; simp [absV], rfl⟩
+        exact ⟨_, n2, rfl, by rw [he, ← hv]; simp [absV]⟩
       · rcases bind_err herr with h | ⟨va, hva, herr⟩
         · rw [(iha n).2 h]
-        · obtain ⟨ma, n1, hma, habs, hsa⟩ := (iha n).1 va hva
+        · obtain ⟨ma, n1, hma, habs⟩ := (iha n).1 va hva
           rw [hma]
           rcases bind_err herr with h | ⟨vb, hvb, herr⟩
           · simp only [(ihb n1).2 h]
-          · obtain ⟨mb, n2, hmb, hbbs, hsb⟩ := (ihb n1).1 vb hvb
+          · obtain ⟨mb, n2, hmb, hbbs⟩ := (ihb n1).1 vb hvb
             simp only [Spec.Eval.binop] at herr
             rcases bind_err herr with h | ⟨r, _, h⟩
-            · exact absurd (by rw [habs, hbbs]; exact h) (equals_refines ma mb hsa hsb).2
+            · exact absurd (by rw [habs, hbbs]; exact h) (equals_refines ma mb).2
             · simp at h
     | and =>
       intro n
       rw [Spec.Eval.eval, evalE]
       refine ⟨fun v hv => ?_, fun herr => ?_⟩
       · obtain ⟨va, hva, hv⟩ := bind_val hv
-        obtain ⟨ma, n1, hma, habs, hsa⟩ := (iha n).1 va hva
+        obtain ⟨ma, n1, hma, habs⟩ := (iha n).1 va hva
         rw [hma]
         simp only
-        rw [← habs, truthy_abs ma hsa] at hv
+        rw [← habs, truthy_abs ma] at hv
         cases ht : ma.truthy
         · simp only [ht, Bool.false_eq_true, if_false] at hv ⊢
           simp only [Out.val.injEq] at hv
-          exact ⟨_, n1, rfl, by rw [← hv]; simp [absV], rfl⟩
+          exact ⟨_, n1, rfl, by rw [← hv]; simp [absV]⟩
         · simp only [ht, if_true] at hv ⊢
           obtain ⟨vb, hvb, hv⟩ := bind_val hv
-          obtain ⟨mb, n2, hmb, hbbs, hsb⟩ := (ihb n1).1 vb hvb
+          obtain ⟨mb, n2, hmb, hbbs⟩ := (ihb n1).1 vb hvb
           simp only [Out.val.injEq] at hv
           rw [hmb]
-          exact ⟨_, n2, rfl, by rw [← hv, ← hbbs, truthy_abs mb hsb]; simp [absV], rfl⟩
+          exact ⟨_, n2, rfl, by rw [← hv, ← hbbs, truthy_abs mb]; simp [absV]⟩
       · rcases bind_err herr with h | ⟨va, hva, herr⟩
         · rw [(iha n).2 h]
-        · obtain ⟨ma, n1, hma, habs, hsa⟩ := (iha n).1 va hva
+        · obtain ⟨ma, n1, hma, habs⟩ := (iha n).1 va hva
           rw [hma]
           simp only
-          rw [← habs, truthy_abs ma hsa] at herr
+          rw [← habs, truthy_abs ma] at herr
           cases ht : ma.truthy
           · simp only [ht, Bool.false_eq_true, if_false] at herr ⊢
             simp at herr
@@ -356,26 +353,26 @@ theorem eval_refines_spec_ord (ord : Bool) (hord : ord = true → OrdExact) : (e
       rw [Spec.Eval.eval, evalE]
       refine ⟨fun v hv => ?_, fun herr => ?_⟩
       · obtain ⟨va, hva, hv⟩ := bind_val hv
-        obtain ⟨ma, n1, hma, habs, hsa⟩ := (iha n).1 va hva
+        obtain ⟨ma, n1, hma, habs⟩ := (iha n).1 va hva
         rw [hma]
         simp only
-        rw [← habs, truthy_abs ma hsa] at hv
+        rw [← habs, truthy_abs ma] at hv
         cases ht : ma.truthy
         · simp only [ht, Bool.false_eq_true, if_false] at hv ⊢
           obtain ⟨vb, hvb, hv⟩ := bind_val hv
-          obtain ⟨mb, n2, hmb, hbbs, hsb⟩ := (ihb n1).1 vb hvb
+          obtain ⟨mb, n2, hmb, hbbs⟩ := (ihb n1).1 vb hvb
           simp only [Out.val.injEq] at hv
           rw [hmb]
-          exact ⟨_, n2, rfl, by rw [← hv, ← hbbs, truthy_abs mb hsb]; simp [absV], rfl⟩
+          exact ⟨_, n2, rfl, by rw [← hv, ← hbbs, truthy_abs mb]; simp [absV]⟩
         · simp only [ht, if_true] at hv ⊢
           simp only [Out.val.injEq] at hv
-          exact ⟨_, n1, rfl, by rw [← hv]; simp [absV], rfl⟩
+          exact ⟨_, n1, rfl, by rw [← hv]; simp [absV]⟩
       · rcases bind_err herr with h | ⟨va, hva, herr⟩
         · rw [(iha n).2 h]
-        · obtain ⟨ma, n1, hma, habs, hsa⟩ := (iha n).1 va hva
+        · obtain ⟨ma, n1, hma, habs⟩ := (iha n).1 va hva
           rw [hma]
           simp only
-          rw [← habs, truthy_abs ma hsa] at herr
+          rw [← habs, truthy_abs ma] at herr
           cases ht : ma.truthy
           · simp only [ht, Bool.false_eq_true, if_false] at herr ⊢
             rcases bind_err herr with h | ⟨vb, _, h⟩
@@ -388,28 +385,28 @@ theorem eval_refines_spec_ord (ord : Bool) (hord : ord = true → OrdExact) : (e
       rw [Spec.Eval.eval, evalE]
       refine ⟨fun v hv => ?_, fun herr => ?_⟩
       · obtain ⟨va, hva, hv⟩ := bind_val hv
-        obtain ⟨ma, n1, hma, habs, hsa⟩ := (iha n).1 va hva
+        obtain ⟨ma, n1, hma, habs⟩ := (iha n).1 va hva
         rw [hma]
         subst habs
         cases ma with
         | undefined => simp only [absV] at hv; simpa [isNullish] using (ihb n1).1 v hv
         | null => simp only [absV] at hv; simpa [isNullish] using (ihb n1).1 v hv
-        | list _ _ => simp [Scalar] at hsa
-        | map _ _ => simp [Scalar] at hsa
-        | bool x => simp only [absV, Out.val.injEq] at hv; exact ⟨_, n1, rfl, by rw [← hv]; simp [absV], rfl⟩
-        | int x => simp only [absV, Out.val.injEq] at hv; exact ⟨_, n1, rfl, by rw [← hv]; simp [absV], rfl⟩
-        | float x => simp only [absV, Out.val.injEq] at hv; exact ⟨_, n1, rfl, by rw [← hv]; simp [absV], rfl⟩
-        | str x => simp only [absV, Out.val.injEq] at hv; exact ⟨_, n1, rfl, by rw [← hv]; simp [absV], rfl⟩
+        | list i xs => simp only [absV, Out.val.injEq] at hv; exact ⟨_, n1, rfl, by rw [← hv]; simp [absV]⟩
+        | map i kvs => simp only [absV, Out.val.injEq] at hv; exact ⟨_, n1, rfl, by rw [← hv]; simp [absV]⟩
+        | bool x => simp only [absV, Out.val.injEq] at hv; exact ⟨_, n1, rfl, by rw [← hv]; simp [absV]⟩
+        | int x => simp only [absV, Out.val.injEq] at hv; exact ⟨_, n1, rfl, by rw [← hv]; simp [absV]⟩
+        | float x => simp only [absV, Out.val.injEq] at hv; exact ⟨_, n1, rfl, by rw [← hv]; simp [absV]⟩
+        | str x => simp only [absV, Out.val.injEq] at hv; exact ⟨_, n1, rfl, by rw [← hv]; simp [absV]⟩
       · rcases bind_err herr with h | ⟨va, hva, herr⟩
         · rw [(iha n).2 h]
-        · obtain ⟨ma, n1, hma, habs, hsa⟩ := (iha n).1 va hva
+        · obtain ⟨ma, n1, hma, habs⟩ := (iha n).1 va hva
           rw [hma]
           subst habs
           cases ma with
           | undefined => simp only [absV] at herr; simpa [isNullish] using (ihb n1).2 herr
           | null => simp only [absV] at herr; simpa [isNullish] using (ihb n1).2 herr
-          | list _ _ => simp [Scalar] at hsa
-          | map _ _ => simp [Scalar] at hsa
+          | list _ _ => simp [absV] at herr
+          | map _ _ => simp [absV] at herr
           | bool x => simp [absV] at herr
           | int x => simp [absV] at herr
           | float x => simp [absV] at herr
@@ -421,13 +418,13 @@ theorem eval_refines_spec_ord (ord : Bool) (hord : ord = true → OrdExact) : (e
 
 /-- the model refines the specification on the scalar operator fragment (no ordering comparisons, no
     hypothesis) -/
-theorem eval_refines_spec_partial (e : Expr) (hf : frag coll e = true) : Sim m s e :=
+theorem eval_refines_spec_partial (e : Expr) (hf : frag e = true) : Sim m s e :=
   eval_refines_spec_ord hr false (fun h => by cases h) e hf
 
 /-- … and with `< > <= >=` on int/int, int/float and float/float operands, given that int → float
     conversion is order-exact below 2^53 (`OrdExact`: a statement about the soft-float Base/F64 that is
     validated bit for bit by the C20 correspondence but not proved) -/
-theorem eval_refines_spec_with_ordering (hx : OrdExact) (e : Expr) (hf : fragO coll true e = true) : Sim m s e :=
+theorem eval_refines_spec_with_ordering (hx : OrdExact) (e : Expr) (hf : fragO true e = true) : Sim m s e :=
   eval_refines_spec_ord hr true (fun _ => hx) e hf
 end
 
@@ -444,13 +441,13 @@ theorem ordExact : OrdExact := by
   exact F64.ofInt_order x y (by simp only [F64.two53]; omega) (by simp only [F64.two53]; omega)
 
 section
-variable {coll : Bytes → Bool} {m : EEnv} {s : Spec.Eval.Env} (hr : EnvRel coll m s)
+variable {m : EEnv} {s : Spec.Eval.Env} (hr : EnvRel m s)
 include hr
 
 /-- the refinement with `< > <= >=`, WITHOUT hypothesis: on the fragment `fragO true` (scalar operators and
     the ordering comparisons on int/int, int/float, float/float operands, ints within ±2^53 as the
     specification demands) the model evaluates to what the specification says, and errs where it errs -/
-theorem eval_refines_spec_ordering (e : Expr) (hf : fragO coll true e = true) : Sim m s e :=
+theorem eval_refines_spec_ordering (e : Expr) (hf : fragO true e = true) : Sim m s e :=
   eval_refines_spec_with_ordering hr ordExact e hf
 end
 
@@ -551,17 +548,13 @@ theorem print_error_writes_nothing (g : GEnv) (esc : Bool) (pos : Nat) (arg : Ex
 def m0 : EEnv := { lookup := fun k => if k == [120] then .int 3 else .undefined, ij := none, globals := [] }
 def s0 : Spec.Eval.Env := { vars := [([120], .int 3)], loops := [], ij := none, globals := [] }
 
-theorem rel0 : EnvRel (fun _ => false) m0 s0 := by
-  refine ⟨fun k _ => ?_, fun k _ => ?_, fun k => ?_⟩
+theorem rel0 : EnvRel m0 s0 := by
+  refine ⟨fun k _ => ?_, fun k => ?_⟩
   · by_cases h : k = [120]
     · subst h; rfl
     · have h' : ([120] == k) = false := by simpa using fun e => h e.symm
       have h'' : (k == [120]) = false := by simpa using h
       simp [m0, s0, Spec.Eval.Env.lookup, Spec.Eval.find, h', h, absV]
-  · by_cases h : k = [120]
-    · subst h; rfl
-    · have h'' : (k == [120]) = false := by simpa using h
-      simp [m0, h, Scalar]
   · simp [m0, s0, Frame.find, Spec.Eval.find]
 
 def x0 : Expr := .dataRef 0 [120] .nil
@@ -570,18 +563,18 @@ def e0 : Expr :=
 
 /-- the specification says `a3`; by the theorem the model says `a3` too -/
 example : ∃ mv n', evalE m0 e0 7 = .ok mv n' ∧ absV mv = .str [97, 51] := by
-  obtain ⟨mv, n', h1, h2, _⟩ := (eval_refines_spec_partial rel0 e0 (by decide) 7).1 (.str [97, 51]) (by rfl)
+  obtain ⟨mv, n', h1, h2⟩ := (eval_refines_spec_partial rel0 e0 (by decide) 7).1 (.str [97, 51]) (by rfl)
   exact ⟨mv, n', h1, h2⟩
 
 /-- with the ordering comparisons: `$x < 4 ? 'lt' : 'ge'` -/
 def e1 : Expr := .tern 0 (.bin .lt 0 x0 (.int 0 4)) (.str 0 [] [108, 116]) (.str 0 [] [103, 101])
 
 example (hx : OrdExact) : ∃ mv n', evalE m0 e1 7 = .ok mv n' ∧ absV mv = .str [108, 116] := by
-  obtain ⟨mv, n', h1, h2, _⟩ := (eval_refines_spec_with_ordering rel0 hx e1 (by decide) 7).1 (.str [108, 116]) (by rfl)
+  obtain ⟨mv, n', h1, h2⟩ := (eval_refines_spec_with_ordering rel0 hx e1 (by decide) 7).1 (.str [108, 116]) (by rfl)
   exact ⟨mv, n', h1, h2⟩
 /-- … and without the hypothesis -/
 example : ∃ mv n', evalE m0 e1 7 = .ok mv n' ∧ absV mv = .str [108, 116] := by
-  obtain ⟨mv, n', h1, h2, _⟩ := (eval_refines_spec_ordering rel0 e1 (by decide) 7).1 (.str [108, 116]) (by rfl)
+  obtain ⟨mv, n', h1, h2⟩ := (eval_refines_spec_ordering rel0 e1 (by decide) 7).1 (.str [108, 116]) (by rfl)
   exact ⟨mv, n', h1, h2⟩
 
 /-- ordering non-numbers is an error on both sides; `'a' - 1` is inside and is an error on both sides -/
